@@ -282,8 +282,8 @@ func (t *MessageContainer) MarshalTL(e *tl.Encoder) error {
 	for _, msg := range *t {
 		e.PutLong(msg.MsgID)
 		e.PutInt(msg.SeqNo)
-		//       msgID        seqNo        len                object
-		e.PutInt(tl.LongLen + tl.WordLen + tl.WordLen + int32(len(msg.Msg)))
+		// bytes is length of body only (message msg_id:long seqno:int bytes:int body:Object)
+		e.PutInt(int32(len(msg.Msg)))
 		e.PutRawBytes(msg.Msg)
 	}
 	return e.CheckErr()
@@ -328,8 +328,24 @@ func (*GzipPacked) CRC() uint32 {
 	return CrcGzipPacked
 }
 
-func (*GzipPacked) MarshalTL(e *tl.Encoder) error {
-	panic("not implemented")
+func (t *GzipPacked) MarshalTL(e *tl.Encoder) error {
+	data, err := tl.Marshal(t.Obj)
+	if err != nil {
+		return errors.Wrap(err, "encoding object before packing")
+	}
+
+	var buf bytes.Buffer
+	gz := gzip.NewWriter(&buf)
+	if _, err = gz.Write(data); err != nil {
+		return errors.Wrap(err, "packing object")
+	}
+	if err = gz.Close(); err != nil {
+		return errors.Wrap(err, "packing object")
+	}
+
+	e.PutUint(t.CRC())
+	e.PutMessage(buf.Bytes())
+	return e.CheckErr()
 }
 
 func (t *GzipPacked) UnmarshalTL(d *tl.Decoder) error {
